@@ -26,6 +26,14 @@ var tick atomic.Int64
 // Tick returns the next logical time stamp.
 func Tick() int64 { return tick.Add(1) }
 
+var moved atomic.Int64
+
+// BytesMoved is the number of bytes accepted from writers plus delivered to
+// readers by all wires of the process so far (progress indicator for the spin
+// monitor: a loop that keeps calling Read/Write without moving a byte does not
+// change it).
+func BytesMoved() int64 { return moved.Load() }
+
 // ChunkPolicy decides how many of the avail pending bytes (avail >= 1) a Read
 // that asked for req bytes (req >= 1) receives, given that off bytes were
 // delivered before.  The result is clamped to [1, min(avail, req)].
@@ -375,6 +383,7 @@ func (c *Conn) readLocked(p []byte) (int, error) {
 				copy(p, h.buf[:n])
 				h.buf = h.buf[n:]
 				h.delivered += int64(n)
+				moved.Add(int64(n))
 				if h.errWithData {
 					if h.cutAt >= 0 && h.delivered >= h.cutAt {
 						switch h.cutKind {
@@ -470,6 +479,7 @@ func (c *Conn) Write(p []byte) (int, error) {
 		h.buf = append(h.buf, out...)
 		h.enqueued += int64(len(out))
 		h.written += int64(room)
+		moved.Add(int64(room))
 		h.Writes[ev].N += room
 		total += room
 		p = p[room:]
